@@ -6,7 +6,7 @@ if [ -n "$(git status --porcelain --untracked-files=no)" ]; then echo "repo dirt
 trap 'git -C /repo checkout -- . ; rm -rf /verif/run/seed-replays; ' EXIT
 git apply "$PATCH" || { echo "patch does not apply"; exit 8; }
 for id in "$@"; do
-  VERIF_NO_EVIDENCE=1 VERIF_REPLAY_DIR=/verif/run/seed-replays /verif/check "$id" "$TIER" >/verif/run/seedtest.out 2>&1; rc=$?
+  VERIF_NO_EVIDENCE=1 VERIF_REPLAY_DIR=/verif/run/seed-replays timeout -s KILL 900 /verif/check "$id" "$TIER" >/verif/run/seedtest.out 2>&1; rc=$?
   grep -E "^(KNOWN|MACHINERY|C[0-9][0-9] )|violation class" /verif/run/seedtest.out | cut -c1-200 | head -12
   echo "== $id exit=$rc"
 done
